@@ -18,13 +18,15 @@ ENTRY = ["random_tensor", "random_cp", "random_tucker", "random_tt", "random_tt_
          "nn_tucker", "nn_tucker_hals", "parafac2", "tr_als", "tr_als_sampled", "tt_cross", "randomized_svd", "sample_khatri_rao",
          "cp_regressor", "tucker_regressor", "cp_plsr", "initialize_cp", "initialize_tucker", "initialize_constrained", "initialize_parafac2",
          "seedfree_decomp", "seedfree_tenalg"]
-CASE_TIMEOUT = {"quick": 120, "thorough": 120}
+CASE_TIMEOUT = {"quick": 120, "thorough": 3000}
+WALL_BUDGET = {"quick": 900, "thorough": 5400}
 
 
 def plan(tier, seed):
     n = 3840 if tier == "quick" else 64000
     every = 48 if tier == "quick" else 16   # cases whose second call runs in a fresh interpreter (hidden module state)
-    return [dict({"gen": ENTRY[i % len(ENTRY)], "idx": i, "seed": seed}, **({"fresh": True} if (i // len(ENTRY)) % every == 0 else {})) for i in range(n)]
+    extra = [{"gen": "ambient", "seed": seed}] if tier == "thorough" else []
+    return extra + [dict({"gen": ENTRY[i % len(ENTRY)], "idx": i, "seed": seed}, **({"fresh": True} if (i // len(ENTRY)) % every == 0 else {})) for i in range(n)]
 
 
 def floors(tier):
@@ -236,6 +238,10 @@ def run_case(case, ctx):
 
 
 def _run_case(case, ctx):
+    if case["gen"] == "ambient":
+        from .c15 import ambient
+        ambient(ctx, "C16")
+        return
     import warnings
     warnings.simplefilter("ignore")
     entry = case["gen"]
